@@ -350,6 +350,20 @@ fn parse_event(case: &Value, text: &str, parsed: &Outcome<Components>, events: &
             let blank = |v: Vec<AbsComp>| -> Vec<AbsComp> { v.into_iter().map(|mut x| { if text_family && !x.cm.starts_with('@') { x.cm = String::new(); } x }).collect() };
             let all = blank(all);
             let mut o = json!({"ok": true, "data": comps_json(&all, q), "needs": needs, "renorm": re});
+            // history Parse ; AddAux ; Normalize: one more auxiliary component (1 kWh per step, not yet assigned to a
+            // service, as the parser would load it) is declared for the first system that has auxiliaries, and the
+            // set is normalised again
+            if let Some(id) = c.data.iter().find_map(|e| match e { Energy::Aux(a) => Some(a.id), _ => None }) {
+                let n = c.num_steps();
+                let mut c2 = c.clone();
+                c2.data.push(Energy::Aux(EAux { id, service: Service::NEPB, values: vec![1.0; n], comment: String::new() }));
+                o["readd"] = match guarded(|| c2.normalize()) {
+                    Outcome::Ok(c3) => json!({"ok": true, "id": id, "add": vec![10i64.pow(q.max(0) as u32); n],
+                                              "data": comps_json(&blank(flat::abs_of_components(&c3)), q)}),
+                    Outcome::Err(k, m) => { let mut f = fail("readd", k, &m); f["id"] = json!(id); f }
+                    Outcome::Panic(m) => { let mut f = fail("readd", "Panic", &m); f["id"] = json!(id); f }
+                };
+            }
             if text_family {
                 if let Outcome::Ok(c2) = guarded(|| c.clone().normalize()) {
                     o["renorm"] = json!({"ok": true, "data": comps_json(&blank(flat::abs_of_components(&c2)), q)});
